@@ -107,10 +107,17 @@ def run(rep, tier, seed, tr_errors):
                 cdc, Rs, taus = ladder(rng, n, kind, True, scale, mixed_start_rq=((n + rep_i) % 2 == 0))
                 ppd = rng.choice([5, 10] if tier == "quick" else [5, 10, 20])
                 f = np.logspace(6, -3, 9 * ppd + 1)
+                # the point density need not be the same everywhere: every ladder with two elements (and a random third of the others)
+                # is measured on a grid that changes from 10 to 5 points per decade (or back) at a random decade
+                if n == 2 or rng.random() < 0.33:
+                    split = rng.choice([2, 1, 0])
+                    hi, lo = rng.choice([(10, 5), (5, 10)])
+                    f = np.concatenate([np.logspace(6, split, (6 - split) * hi + 1), np.logspace(split, -3, (split + 3) * lo + 1)[1:]])
+                    ppd = 5
                 Z = parse_cdc(cdc).get_impedances(f)
                 modes = [("real", 1e-3), ("imaginary", 1e-3), (rng.choice(["real", "imaginary"]), -1.0), (rng.choice(["real", "imaginary"]), -2.0)]
                 for mode, lam in (modes if tier != "quick" else rng.sample(modes, 2)):
-                    desc = dict(cdc=cdc, points_per_decade=ppd, method="tr-nnls", mode=mode, lambda_value=lam)
+                    desc = dict(cdc=cdc, points_per_decade=ppd, method="tr-nnls", mode=mode, lambda_value=lam, frequencies=[float(x) for x in f])
                     try:
                         r = drt(f, Z, method="tr-nnls", mode=mode, lambda_value=lam)
                     except Exception as e:  # noqa
